@@ -81,11 +81,15 @@ func (list *List) Range(start int, stop int) []string {
 	if stop < 0 {
 		stop = len(list.elements) + stop
 	}
+	// Clamps the range to the list so that extreme indices do not make the loop run for ages.
+	if start < 0 {
+		start = 0
+	}
+	if len(list.elements) <= stop {
+		stop = len(list.elements) - 1
+	}
 	elems := []string{}
 	for n := start; n <= stop; n++ {
-		if (n < 0) || ((len(list.elements) - 1) < n) {
-			continue
-		}
 		elems = append(elems, list.elements[n])
 	}
 	return elems
